@@ -242,6 +242,16 @@ fn main() {
                 cx.out.case("", &[], &["convenience".into(), case.to_string(), what.clone(), hx(&msg[..msg.len().min(2500)])], &format!("{what}={a} ring={b}"), Some(a == b && a != "WRONG-PLAINTEXT" && !a.starts_with("PANIC")), &format!("convenience-{}", what));
             }
         }
+        // SKESK v4 has no integrity: does a presented password open a packet that was NOT made for it to a plausible session key
+        // other than the message's?  (established here from the packets themselves, never from the wording of an error; this is
+        // the recorded finding skesk4-other-password-plausible-key)
+        let skesk4_garbage = !c.v2 && {
+            let sks: Vec<(usize, Sk)> = { let mut i = 0usize; let mut v = Vec::new(); for e in &esks { if let E::Sk { .. } = e { i += 1; } let _ = i; } let mut idx = 0usize;
+                for p in PacketParser::new(&msg[..]).flatten().take_while(|p| matches!(p, Packet::SymKeyEncryptedSessionKey(_) | Packet::PublicKeyEncryptedSessionKey(_))) { if let Packet::SymKeyEncryptedSessionKey(s) = p { v.push((idx, s)); idx += 1; } } v };
+            let made_for: Vec<usize> = esks.iter().filter_map(|e| if let E::Sk { pw, .. } = e { Some(*pw) } else { None }).collect();
+            present_pws.iter().any(|p| sks.iter().any(|(i, sk)| made_for.get(*i).map(|q| q != p).unwrap_or(false)
+                && guarded(|| decrypt_session_key_with_password(sk, &Password::from(pws[*p])).ok()).ok().flatten().map(|k| !matches!(&k, PlainSessionKey::V3_4 { key, .. } if *key == keyof(0))).unwrap_or(false)))
+        };
         let said_conflict = imp == "Fx conflict";
         let imp = if said_conflict { "Fx".to_string() } else { imp };
         // ---- the oracle table for the model
@@ -259,7 +269,11 @@ fn main() {
         let names: Vec<&str> = present_keys.iter().map(|i| pool[*i].name.as_str()).collect();
         let rp = vec!["ring".to_string(), case.to_string(), hx(&msg[..msg.len().min(2500)]), names.join("+"), format!("{:?}", key_pw_strs)];
         let never_wrong_plaintext = imp != "WRONG-PLAINTEXT" && !imp.starts_with("PANIC");
-        if judged_by_model {
+        if judged_by_model && skesk4_garbage && imp == "Fx" {
+            // the recipient's password was given, and decryption is refused because the same password also "opens" another
+            // recipient's unauthenticated packet to garbage
+            cx.out.case("", &[], &rp, "SKESK4-PASSWORD-OPENS-OTHER-PACKET: decryption refused although a recipient's password was presented", Some(false), "seipd1-skesk4-garbage-key");
+        } else if judged_by_model {
             cx.out.case("decide", &args, &rp, &imp, Some(never_wrong_plaintext), &format!("{}-{}{}", if c.v2 { "seipd2" } else { "seipd1" }, if abort_early { "abort-early" } else { "cross-check" }, if said_conflict { "-conflict-reported" } else { "" }));
         } else {
             // unauthenticated SKESK v4 with a foreign password: it may yield a bogus session key; then an error, never plaintext that is not the message
